@@ -60,6 +60,9 @@ CHECKS = {
  "C13": ("exploration", "runtime monitor on real sockets: SCION requests with independently computed packet authenticators (scion library spao, mock DRKey) against the real listeners and dispatcher in child processes, and the real authenticated SCION client against a scripted peer; forwarding observed on application sockets",
          "Authenticated requests served iff the MAC is intact over definitely covered bytes; replies checked for server SPI, a verifying MAC, exchanged addressing, library path reversal, intact SCMP payload; forwarding exactly on the end-host port and never to it; bad MACs never accepted by the client.",
          "mock keys (zero host-to-host key) instead of a control plane: address changes are bound by key derivation in reality and are not asserted here; hand-built paths", "3/C13"),
+ "C15": ("exploration", "runtime monitors: crypto.Sample/RandIntn with crypto/rand.Reader replaced by a scripted word source (structure, rejection threshold, chi-square uniformity, full 2^32-word enumeration for n=3 in thorough), and rounds of the real MeasureClockOffsetSCION observed on the wire by per-path scripted servers, race detector on",
+         "Client->path relation per round reconstructed from the requests each path's server received (clients told apart by DSCP): injective, within the offer, sticky for interleaved clients, reset on withdrawal; result compared with the fault-tolerant midpoint of the participants' known offsets.",
+         "hand-built paths and scripted servers instead of a SCION network; uniformity is statistical (p ~ 1e-9) plus exhaustive only for n=3; race reports are observations (O1), the property does not claim race freedom", "3/C15"),
 }
 
 NOT_APPLICABLE = {
